@@ -19,6 +19,10 @@ CLAIMED = {
    tech="TLA+ spec ProfileDB.tla (ghost backend + the six index maps + explicitly scheduled clean-up steps + cache file/restart) model-checked by TLC; TLC-generated and seeded histories replayed on the real profiledb.Default with intercepted clean-up goroutines and a virtual clock; all look-ups probed after every step and validated by TLC (TraceProfileDB.tla); cache-file replacement validated against AtomicFile.tla from strace logs with a SIGKILL injected at every system call",
    text="TLC explores every interleaving of backend mutations (attach/detach/move, linked/dedicated IP and human-id changes and swaps, profile deletion), full and partial syncs, restarts from the cache file, look-ups and the background clean-ups they spawn (each an independently scheduled step) and checks in every state that all four look-ups answer with the owner in the last synchronised data; two sanity configs show the pinned tree's defects are expressible. The same histories are forced on the real database (clean-ups queued by an overlay rewrite and run when the schedule says), every probe of every key after every step is checked by TLC against the oracle, a restart must restore every profile/device field (structural deep comparison over randomised settings), and every system call of the cache-file replacement is a kill point after which the file must load as a complete version.",
    note=TRUST + "the scripted Storage delivers whole dirty profiles like backendpb; regex overlay rewrites of profiledb.go (time.Now -> VerifNow, `go db.remove*` -> VerifGo) fail closed (exit 2) if the source shape changes; strace syscall injection; auto-device creation not modelled.", ref="6 C14"),
+ "C15": dict(
+   tech="TLA+ decision table QueryLog.tla and writer-interleaving model QueryLogFile.tla checked exhaustively by TLC (+ sanity variants); per-line trace validation of real ratelimitmw -> mainmw -> querylog.FileSystem executions and of strace-recorded write(2) calls plus file read-back",
+   text="TLC enumerates attribution x QueryLog/IPLog flags x fate (processed, debug, failed, undelivered, rate-limited, access-blocked, unknown dedicated) x filter outcome x protocol x request facts and checks LoggedIff, BilledIff, IPIffIPLog, EntryDescribesOwnRequest, NothingForDropped; the file model explores all interleavings of 4 writers x 3 entries (Encode to a private buffer; one atomic append) for FileIsWholeLines. Real requests over the whole product (drop stages driven for real) are validated line by line against the table, and every write system call on the log file plus every line read back from concurrent writers is validated against the file model.",
+   note=TRUST + "filter, upstream, device finder and GeoIP are scripted; the documented log format is transcribed from doc/querylog.md; strace for the syscall-level observation (falls back to read-back only, noted in the evidence); real interleavings are sampled, exhaustive interleaving coverage is TLC's.", ref="6 C15"),
  "C16": dict(
    tech="TLA+ spec BillStat.tla model-checked by TLC; TLC-generated and seeded action sequences replayed on the real RuntimeRecorder through a gating Uploader; recorded traces validated by TLC (TraceBillStat.tla)",
    text="TLC enumerates every interleaving of Record / reset / upload-ok / upload-fail for 2-3 devices and up to two overlapping refreshes and checks conservation, no-double-count and metadata-latest in every state; the same actions are forced on the real recorder (the Uploader is the gate) and every observed state is checked by TLC against the spec, so a code change that breaks conservation on some interleaving is rejected at the step where it diverges.",
